@@ -177,19 +177,7 @@ def r15_2(ctx) -> None:
                       "registry derived from self.header_registry", construct="registry of check_supported_header")
         # JWE: algorithm specific parameters
         if fn.cls is not None and fn.cls.name == "JWERegistry":
-            d = []
-            for s in _calls_to(eng, fn, vrh):
-                if len(s.node.args) >= 3 and norm(s.node.args[0]).endswith(".more_header_registry") and norm(s.node.args[1]) == hp \
-                        and norm(s.node.args[2]) == "check_more":
-                    x = cfg.node_of(s.node)
-                    if x is not None:
-                        d.append(x)
-            mt = [t for t in cfg.nodes if t.kind == "test" and norm(t.ast).endswith(".more_header_registry")]
-            okd = bool(d) and bool(mt)
-            if okd:
-                def ef2(a_, b_, lab, _mt=mt):
-                    return not (a_ in _mt and lab == "false")
-                okd = cfg.must_pass(cfg.entry, cfg.exit, d, edge_filter=ef2)
+            okd = alg_specific_validation_ok(eng, fn, vrh)
             ctx.check(okd, "R15.2", fn, fn.node, f"{fn.short} :: algorithm-specific parameters", "algorithm-specific header parameters are not validated "
                       "with the caller's check_more flag", "validate_registry_header(alg.more_header_registry, header, check_more) whenever present",
                       construct="algorithm-specific validation")
@@ -231,6 +219,32 @@ def r15_2(ctx) -> None:
                         okb = False
         ctx.check(okb, "R15.2", fn, fn.node, f"{fn.short} :: b64 needs crit", "a header with b64 can pass without the crit check", "`'b64' in header` always leads through the crit gate",
                   construct="b64 crit gate")
+
+
+def alg_specific_validation_ok(eng, fn: FunctionInfo, vrh: Optional[FunctionInfo] = None) -> bool:
+    """JWERegistry.check_header: whenever the model has a more_header_registry, validate_registry_header(<it>, header, check_more)
+    runs on every completing path - whatever strict_check_header says (also used by C16 E3 J1)"""
+    if vrh is None:
+        vrh = eng.prog.func("registry:validate_registry_header")
+    cfg = cfg_of(fn)
+    hp = fn.pos_params[1]
+    d = []
+    for s in _calls_to(eng, fn, vrh):
+        if len(s.node.args) >= 3 and norm(s.node.args[0]).endswith(".more_header_registry") and norm(s.node.args[1]) == hp \
+                and norm(s.node.args[2]) == "check_more":
+            x = cfg.node_of(s.node)
+            if x is not None:
+                d.append(x)
+    mt = [t for t in cfg.nodes if t.kind == "test" and norm(t.ast).endswith(".more_header_registry")]
+    if not d:
+        return False
+    if not mt:
+        # unconditional validation (an empty table validates nothing)
+        return cfg.must_pass(cfg.entry, cfg.exit, d)
+
+    def ef2(a_, b_, lab, _mt=mt):
+        return not (a_ in _mt and lab == "false")
+    return cfg.must_pass(cfg.entry, cfg.exit, d, edge_filter=ef2)
 
 
 def _registry_roots_ok(e: ast.AST, sn: str) -> bool:
